@@ -8,6 +8,7 @@ CONSTANTS
   Hardened = TRUE
   StopAtAuth = TRUE
   CtLenExact = TRUE
+  StoreAfterUid = TRUE
   LenChoices <- LenChoicesExh
   TruncMax = 4
-INVARIANTS TypeOK Sound Complete CookieBinding AuthenticOnly
+INVARIANTS TypeOK Sound Complete CookieBinding AuthenticOnly RejectedInert
